@@ -277,12 +277,12 @@ func verifShaped(v string) bool {
 //verif:stub (time.Time).Zone verifStubZone
 //verif:stub strconv.ParseFloat verifStubParseFloat
 //verif:reach error-counted timestamp-set
-//verif:unwind 80
+//verif:unwind 120
 func VerifC13_Total() {
 	verifDate = verifDateRec{}
 	max := 26
 	if sym.Tier() > 0 {
-		max = 40
+		max = 96
 	}
 	v := sym.String("time", 0, max)
 	cnt := &verifCounter{}
@@ -318,7 +318,7 @@ func VerifC13_Total() {
 //verif:stub (time.Time).Zone verifStubZone
 //verif:stub strconv.ParseFloat verifStubParseFloat
 //verif:reach error-counted timestamp-set
-//verif:unwind 80
+//verif:unwind 120
 func VerifC07_ParseTimeAnyBytes() { VerifC13_Total() }
 
 // VerifC13_EveryErrorCounted: two malformed timestamps through the same
